@@ -5,6 +5,10 @@
 #include <cstring>
 
 #include "mp/backend-app.h"   // defines non-inline functions: include in this TU only
+extern "C" {
+#include "mp/ampls-c-api.h"
+}
+#include "mp/ampls-cpp-api.h"
 
 #include "../core/shim.h"
 #include "simbackend.h"
@@ -131,6 +135,97 @@ RunRecord run_driver(const sim::Json& sc) {
   return rec;
 }
 
+
+RunRecord run_ampls_session(const sim::Json& sc) {
+  static RunRecord rec_static;
+  rec_static = RunRecord();
+  RunRecord& rec = rec_static;
+  using sim::g;
+  sim::clean_scratch();
+  for (auto& kv : sc["files"].obj()) {
+    sim::write_file(sim::scratch_dir() + kv.first, kv.second.as_str());
+    rec.files_before[kv.first] = kv.second.as_str();
+  }
+  g.reset();
+  sim::shim_reset();
+  g.scratch = sim::scratch_dir();
+  for (auto& kv : sc["env"].obj()) g.env[kv.first] = subst(kv.second.as_str());
+  for (auto& f : sc["faults"].arr()) g.faults.push_back(sim::FaultOp::from_json(f));
+  g_stub.clear();
+  const sim::Json& ses = sc["session"];
+  g_script = sim::Json::object();
+  g_dual_mode = 0; g_cb_calls = 0;
+  normalise_signal_statics();
+  std::vector<std::string> lopt_s; std::vector<char*> lopt;
+  for (auto& a : ses["load_options"].arr()) lopt_s.push_back(subst(a.as_str()));
+  for (auto& s0 : lopt_s) lopt.push_back((char*)s0.c_str());
+  lopt.push_back(nullptr);
+  sim::capture_begin();
+  static sigjmp_buf jb;
+  g.exit_jmp = &jb;
+  g.begin();
+  AMPLS_MP_Solver* slv = nullptr;
+  if (sigsetjmp(jb, 1) == 0) {
+    try {
+      if (ses["rounds"].size()) g_script = ses["rounds"][(size_t)0]["script"];   // the backend constructor reads some of it
+      slv = AMPLS__internal__Open(CreateSimBackend(), {});
+      for (auto& o : ses["api_options"].arr()) {
+        std::string name = o[(size_t)0].as_str(), type = o[(size_t)1].as_str();
+        int rc = type == "int" ? AMPLSSetIntOption(slv, name.c_str(), (int)o[(size_t)2].as_int())
+               : type == "dbl" ? AMPLSSetDblOption(slv, name.c_str(), o[(size_t)2].as_double())
+                               : AMPLSSetStrOption(slv, name.c_str(), subst(o[(size_t)2].as_str()).c_str());
+        g.event("API_SET " + name + " rc=" + std::to_string(rc));
+      }
+      std::string nl = sim::scratch_dir() + "stub.nl";
+      rec.rc_load = AMPLSLoadNLModel(slv, nl.c_str(), lopt.data());
+      g.event("API_LOAD rc=" + std::to_string(rec.rc_load));
+      for (auto& rd : ses["rounds"].arr()) {
+        RunRecord::Round r;
+        g_script = rd["script"];
+        g_dual_mode = (int)g_script["dual_mode"].as_int(0);
+        if (rec.rc_load == 0) {
+          AMPLSSolve(slv);
+          std::string f = rd["solfile"].is_null() ? std::string() : subst(rd["solfile"].as_str());
+          r.rc_report = AMPLSReportResults(slv, rd["solfile"].is_null() ? nullptr : f.c_str());
+        }
+        g.event("API_ROUND report_rc=" + std::to_string(r.rc_report));
+        for (auto& name : sim::list_scratch()) {
+          if (name.size() < 4 || name.compare(name.size() - 4, 4, ".sol") != 0) continue;
+          std::string data;
+          if (sim::read_file(sim::scratch_dir() + name, data)) r.sol_files[name] = data;
+        }
+        r.stub_objs = (int)g_stub.objs.size();
+        rec.rounds.push_back(r);
+      }
+      if (const char* const* msgs = AMPLSGetMessages(slv)) for (; *msgs; ++msgs) rec.api_messages.push_back(*msgs);
+      AMPLS__internal__Close(slv);
+      slv = nullptr;
+    } catch (const std::exception& e) {
+      rec.escaped = true; rec.escaped_what = e.what();
+    } catch (...) {
+      rec.escaped = true; rec.escaped_what = "non-std exception";
+    }
+  }
+  g.end();
+  signal(SIGINT, SIG_IGN); signal(SIGTERM, SIG_IGN);
+  signal(SIGINT, SIG_DFL); signal(SIGTERM, SIG_DFL);
+  sim::capture_end(rec.out, rec.err);
+  g.exit_jmp = nullptr;
+  rec.exited = g.exited; rec.exit_code = g.exit_code;
+  rec.step_budget_exceeded = g.step_budget_exceeded;
+  rec.stub = g_stub;
+  rec.history = g.history;
+  rec.hash = g.hash;
+  rec.fired = g.fired;
+  rec.sim_time_s = (g.clock_ns - g.clock_start_ns) * 1e-9;
+  rec.faults = g.faults;
+  for (auto& name : sim::list_scratch()) {
+    std::string data;
+    if (sim::read_file(sim::scratch_dir() + name, data)) rec.files_after[name] = data;
+  }
+  return rec;
+}
+
 void fill_result(const RunRecord& rec, sim::RunResult& r) {
   uint64_t h = rec.hash;
   h = sim::fnv1a(sim::norm_paths(rec.out), h);
@@ -211,6 +306,14 @@ class DrvEngine : public sim::Engine {
       }
     };
     if (p->run) { r = p->run(sc); hang_rule(r); return r; }
+    if (sc.has("session")) {
+      drvsim::RunRecord rec = drvsim::run_ampls_session(sc);
+      drvsim::fill_result(rec, r);
+      p->judge(sc, rec, r);
+      if (::getenv("VERIF_DUMP")) drvsim::dump_record(rec);
+      hang_rule(r);
+      return r;
+    }
     drvsim::RunRecord rec = drvsim::run_driver(sc);
     drvsim::fill_result(rec, r);
     p->judge(sc, rec, r);
